@@ -139,6 +139,8 @@ PROPS = {
                       'handle_clone_after_heap_drop': {'kind': 'complete', 'fn': 'Gc::clone / Gc::drop (heap already dropped)'},
                       'guard_ops_after_heap_drop': {'kind': 'complete', 'fn': 'Guard::guard / Guard::drop (heap already dropped)'},
                       'guard_live_heap_respects_pooled': {'kind': 'complete', 'fn': 'Guard::guard (live heap, symbolic pooled flag)'},
+                      'space_pool_object_once': {'kind': 'complete', 'fn': 'Space::pool_object'},
+                      'space_alloc_reuses_pooled_slot_reset': {'kind': 'complete', 'fn': 'Space::alloc_internal (reuse path)'},
                       'guard_unguard_roots0': {'kind': 'bounded', 'bound': 'root list of exactly 0 entries', 'fn': 'Guard::unguard / len / clear'},
                       'guard_unguard_roots2': {'kind': 'bounded', 'bound': 'root list of exactly 2 entries drawn from 3 objects', 'fn': 'Guard::unguard / len / clear'},
                       'guard_unguard_roots1': {'kind': 'bounded', 'bound': 'root list of exactly 1 entry', 'fn': 'Guard::unguard / len / clear', 'tier': 'thorough'},
